@@ -889,6 +889,10 @@ def run_server_scenario(plan, sched_values=None, sched_seed=0):
     k = K.Kernel(tape, horizon=plan.get('horizon', 60.0),
                  step_cap=plan.get('step_cap', 200000))
     k.fixed_latency = plan.get('fixed_latency')
+    if plan.get('line'):
+        import engineio as _e
+        import os as _os
+        k.enable_lines(plan['line'], (_os.path.dirname(_e.__file__) + '/',))
     world = make_world(plan.get('server', 'threaded'), k,
                        config=_config_from_plan(plan.get('config', {})),
                        app_opts=plan.get('app_opts', {}),
